@@ -179,7 +179,7 @@ ReportStd(ev, v, sl, own) ==
       badOwn == IF ~own THEN {} ELSE {k \in 1..Len(flags) : flags[k] /\ (off + k > Len(s.is) \/ s.is[off + k] # "T")}
   IN
   /\ Chk(badIs = {}, ev, "std.is", "verdict", {"C14"}, {}, badIs)
-  /\ Chk(badAs = {}, ev, "std.as", "verdict", {"C14"}, {}, [k \in badAs |-> s.as[k]])
+  /\ Chk(badAs = {}, ev, "std.as", "verdict", PropsFor({"C14"}, v) \ {"C07"}, {}, [k \in badAs |-> s.as[k]])
   /\ Chk(~badUnw, ev, "std.unwrap", "verdict", {"C14"}, TRUE, [eq |-> s.unwrapEq, std |-> s.stdUnwNil, lib |-> s.libUnwNil])
   /\ Chk(~badCause, ev, "std.cause", "verdict", {"C14"}, TRUE, [pkg |-> s.pkgRoot, lib |-> s.libRoot, eq |-> s.causeEq])
   /\ Chk(badOwn = {}, ev, "std.own", "verdict", {"C14"}, {}, badOwn)
